@@ -19,16 +19,33 @@ import (
 // NewClient returns a *real* clientv3.Client whose KV, Lease and Watcher talk to s.
 // The client's context is ctx; Close the returned client (and its Lease) when done.
 func (s *Server) NewClient(ctx context.Context) *clientv3.Client {
+	return s.NewClientHook(ctx, nil)
+}
+
+// NewClientHook is NewClient with a hook private to this client (nil = the server's hook).
+// A core instance gets its own client, so its requests can be intercepted, failed or dropped
+// (crash) independently of other instances sharing the server.
+func (s *Server) NewClientHook(ctx context.Context, h Hook) *clientv3.Client {
 	c := clientv3.NewCtxClient(ctx)
-	c.KV = clientv3.NewKVFromKVClient(kvClient{s}, c)
-	c.Lease = clientv3.NewLeaseFromLeaseClient(leaseClient{s}, c, 5*time.Second)
-	c.Watcher = &watcherAPI{s: s}
+	c.KV = clientv3.NewKVFromKVClient(kvClient{s, h}, c)
+	c.Lease = clientv3.NewLeaseFromLeaseClient(leaseClient{s, h}, c, 5*time.Second)
+	c.Watcher = &watcherAPI{s: s, h: h}
 	return c
+}
+
+func (s *Server) pointH(ctx context.Context, h Hook, p Point) error {
+	if h != nil {
+		return h(ctx, p)
+	}
+	return s.point(ctx, p)
 }
 
 // ---------------------------------------------------------------- KV
 
-type kvClient struct{ s *Server }
+type kvClient struct {
+	s *Server
+	h Hook
+}
 
 func ctxErr(ctx context.Context) error {
 	if err := ctx.Err(); err != nil {
@@ -41,7 +58,7 @@ func (c kvClient) Range(ctx context.Context, in *pb.RangeRequest, _ ...grpc.Call
 	if err := ctxErr(ctx); err != nil {
 		return nil, err
 	}
-	if err := c.s.point(ctx, Point{Kind: "range", Key: string(in.Key)}); err != nil {
+	if err := c.s.pointH(ctx, c.h, Point{Kind: "range", Key: string(in.Key)}); err != nil {
 		return nil, err
 	}
 	c.s.mu.Lock()
@@ -54,7 +71,7 @@ func (c kvClient) Put(ctx context.Context, in *pb.PutRequest, _ ...grpc.CallOpti
 	if err := ctxErr(ctx); err != nil {
 		return nil, err
 	}
-	if err := c.s.point(ctx, Point{Kind: "put", Key: string(in.Key), Write: true}); err != nil {
+	if err := c.s.pointH(ctx, c.h, Point{Kind: "put", Key: string(in.Key), Write: true}); err != nil {
 		return nil, err
 	}
 	s := c.s
@@ -87,7 +104,7 @@ func (c kvClient) DeleteRange(ctx context.Context, in *pb.DeleteRangeRequest, _ 
 	if err := ctxErr(ctx); err != nil {
 		return nil, err
 	}
-	if err := c.s.point(ctx, Point{Kind: "delete", Key: string(in.Key), Write: true}); err != nil {
+	if err := c.s.pointH(ctx, c.h, Point{Kind: "delete", Key: string(in.Key), Write: true}); err != nil {
 		return nil, err
 	}
 	s := c.s
@@ -127,7 +144,7 @@ func (c kvClient) Txn(ctx context.Context, in *pb.TxnRequest, _ ...grpc.CallOpti
 	if err := ctxErr(ctx); err != nil {
 		return nil, err
 	}
-	if err := c.s.point(ctx, Point{Kind: "txn", Key: firstTxnKey(in), Write: txnWrites(in)}); err != nil {
+	if err := c.s.pointH(ctx, c.h, Point{Kind: "txn", Key: firstTxnKey(in), Write: txnWrites(in)}); err != nil {
 		return nil, err
 	}
 	s := c.s
@@ -164,13 +181,16 @@ func (c kvClient) Compact(ctx context.Context, in *pb.CompactionRequest, _ ...gr
 
 // ---------------------------------------------------------------- Lease
 
-type leaseClient struct{ s *Server }
+type leaseClient struct {
+	s *Server
+	h Hook
+}
 
 func (c leaseClient) LeaseGrant(ctx context.Context, in *pb.LeaseGrantRequest, _ ...grpc.CallOption) (*pb.LeaseGrantResponse, error) {
 	if err := ctxErr(ctx); err != nil {
 		return nil, err
 	}
-	if err := c.s.point(ctx, Point{Kind: "grant", Key: fmt.Sprint(in.TTL), Write: true}); err != nil {
+	if err := c.s.pointH(ctx, c.h, Point{Kind: "grant", Key: fmt.Sprint(in.TTL), Write: true}); err != nil {
 		return nil, err
 	}
 	s := c.s
@@ -196,7 +216,7 @@ func (c leaseClient) LeaseRevoke(ctx context.Context, in *pb.LeaseRevokeRequest,
 	if err := ctxErr(ctx); err != nil {
 		return nil, err
 	}
-	if err := c.s.point(ctx, Point{Kind: "revoke", Key: fmt.Sprint(in.ID), Write: true}); err != nil {
+	if err := c.s.pointH(ctx, c.h, Point{Kind: "revoke", Key: fmt.Sprint(in.ID), Write: true}); err != nil {
 		return nil, err
 	}
 	s := c.s
@@ -213,7 +233,7 @@ func (c leaseClient) LeaseTimeToLive(ctx context.Context, in *pb.LeaseTimeToLive
 	if err := ctxErr(ctx); err != nil {
 		return nil, err
 	}
-	if err := c.s.point(ctx, Point{Kind: "ttl", Key: fmt.Sprint(in.ID)}); err != nil {
+	if err := c.s.pointH(ctx, c.h, Point{Kind: "ttl", Key: fmt.Sprint(in.ID)}); err != nil {
 		return nil, err
 	}
 	s := c.s
@@ -259,6 +279,7 @@ func (c leaseClient) LeaseLeases(ctx context.Context, in *pb.LeaseLeasesRequest,
 // send/recv loops run against it.
 type keepAliveStream struct {
 	s    *Server
+	h    Hook
 	ctx  context.Context
 	mu   sync.Mutex
 	q    []*pb.LeaseKeepAliveResponse
@@ -269,14 +290,14 @@ func (c leaseClient) LeaseKeepAlive(ctx context.Context, _ ...grpc.CallOption) (
 	if err := ctxErr(ctx); err != nil {
 		return nil, err
 	}
-	return &keepAliveStream{s: c.s, ctx: ctx, wake: make(chan struct{}, 1)}, nil
+	return &keepAliveStream{s: c.s, h: c.h, ctx: ctx, wake: make(chan struct{}, 1)}, nil
 }
 
 func (k *keepAliveStream) Send(r *pb.LeaseKeepAliveRequest) error {
 	if err := ctxErr(k.ctx); err != nil {
 		return err
 	}
-	if err := k.s.point(k.ctx, Point{Kind: "keepalive", Key: fmt.Sprint(r.ID), Write: true}); err != nil {
+	if err := k.s.pointH(k.ctx, k.h, Point{Kind: "keepalive", Key: fmt.Sprint(r.ID), Write: true}); err != nil {
 		return err
 	}
 	s := k.s
@@ -336,6 +357,7 @@ type watcher struct {
 
 type watcherAPI struct {
 	s *Server
+	h Hook
 }
 
 func (s *Server) publishLocked(evs []Event) {
@@ -384,7 +406,7 @@ func (a *watcherAPI) Watch(ctx context.Context, key string, opts ...clientv3.OpO
 	op := clientv3.OpGet(key, opts...)
 	s := a.s
 	w := &watcher{key: op.KeyBytes(), end: op.RangeBytes(), ch: make(chan clientv3.WatchResponse), ctx: ctx, wake: make(chan struct{}, 1)}
-	_ = s.point(ctx, Point{Kind: "watch", Key: key})
+	_ = s.pointH(ctx, a.h, Point{Kind: "watch", Key: key})
 	s.mu.Lock()
 	s.expireLocked()
 	if rev := op.Rev(); rev > 0 {
